@@ -117,7 +117,7 @@ def skel_src(s, ind, cn, rn):
 
     def cond():
         cn[0] += 1
-        return f"c{cn[0]}"
+        return cn[1][cn[0] - 1] if len(cn) > 1 else f"c{cn[0]}"
     if k == "if":
         return f"{p}if {cond()} {{\n{skel_src(s[1], ind + 1, cn, rn)}{p}}}\n"
     if k == "while":
@@ -134,6 +134,7 @@ def skel_src(s, ind, cn, rn):
     raise ValueError(s)
 
 
+LIT_CONDS = ["false", "true", "!true", "!false", "(1 > 2)", "(2 > 1)"]
 DYNAMIC_TYPE_ERROR = "type-error"
 # where the function whose return paths are analysed is written: a function value, a class method, a closure returned by a factory,
 # a function nested in a void function
@@ -396,6 +397,9 @@ class C02(Check):
               ("Le-depth2-operator-trees-typeof-vs-kind" + ("-every-11th" if tier == "quick" else ""), tr[::11] if tier == "quick" else tr)]
         ls.append(("Lx-consumer-positions-x-carriers", [("cons", st, car, host) for st in consumer_sites() for car in (CONSUMER_CARRIERS if not st.startswith("snap-") else ["variable"])
                                                               for host in ("closure", "fn")]))
+        clit = [("ret", i, form, v) for form in ("fn", "method") for i, s in enumerate(skeletons(1)) if count_conds(s) >= 1 for v in range(len(LIT_CONDS))] + \
+               [("ret2", i, "fn", v) for i, s in enumerate(skeletons(2)) if 1 <= count_conds(s) <= 4 for v in range(len(LIT_CONDS))][::(7 if tier == "quick" else 1)]
+        ls.append(("Lc-return-paths-with-literal-conditions", clit))
         c2 = [("ret2", i, form) for form in RET_FORMS for i, s in enumerate(skeletons(2)) if count_conds(s) <= 4]
         if tier == "quick":
             c2 = c2[::9]
@@ -475,6 +479,13 @@ class C02(Check):
             params = ", ".join(f"c{i + 1}: bool" for i in range(n))
             form = case[2] if len(case) > 2 else "fn"
             callee = "f"
+            if len(case) > 3:
+                # conditions that are LITERALS (which the compiler may fold) and constant comparisons instead of parameters: variant v puts LIT_CONDS[(v + j) % 6] at condition j
+                cn = [0, [LIT_CONDS[(case[3] + j) % len(LIT_CONDS)] for j in range(n)]]
+                body = skel_src(sk, 1, cn, rn)
+                if form == "method":
+                    return f"class RK {{\n\tconstructor(self) {{}}\n\tfn f(self) -> int {{\n\t\tacc = 0\n{skel_src(sk, 2, [0, cn[1]], [0])}\t}}\n}}\nrk = RK()\nr = rk.f()\nprint r\n", 0
+                return f"f = fn() -> int {{\n\tacc = 0\n{body}}}\nr = f()\nprint r\n", 0
             if form == "fn":
                 body = skel_src(sk, 1, cn, rn)
                 s = f"f = fn({params}) -> int {{\n\tacc = 0\n{body}}}\n"
